@@ -719,6 +719,15 @@ def rule_defined(ctx):
         ctx.floor_errors.append(f"rule=C05.DEFINED: {n} functions of server.py analysed (floor 80)")
 
 
+def rule_initial_offset(ctx):
+    p = ctx.p
+    kv = session_kwargs(p)
+    v = kv.get("restart_offset")
+    ctx.ob("C05.REST", v if v is not None else p.session_ctor(), "a session starts with restart offset 0", isinstance(v, ast.Constant) and v.value == 0,
+           f"a new session starts with restart_offset = `{src(v) if v is not None else 'missing'}`: the first transfer of every session skips that many bytes although no REST was sent",
+           construct="rest:initial offset")
+
+
 def rule_flush(ctx):
     p = ctx.p
     ctx.rule("C05.FLUSH", "the reply that announces the end of a session is sent: when a handler asks for the session to end, the dispatcher waits for the reply queue to drain "
@@ -741,4 +750,4 @@ def rule_flush(ctx):
                construct="flush:return without join")
 
 
-RULES = [rule_one_end, rule_wrappers, rule_seq, rule_arg, rule_rest, rule_codes, rule_cwd, rule_rename, rule_refuse, rule_guard_seq, rule_line, rule_borrowed_r4, rule_preconditions, rule_defined, rule_flush]
+RULES = [rule_one_end, rule_wrappers, rule_seq, rule_arg, rule_rest, rule_codes, rule_cwd, rule_rename, rule_refuse, rule_guard_seq, rule_line, rule_borrowed_r4, rule_preconditions, rule_defined, rule_flush, rule_initial_offset]
